@@ -10,7 +10,7 @@ import re
 from concurrent.futures import ThreadPoolExecutor
 
 from vlib import core
-from translate import t_treeconsts, t_treeops, t_treealgo
+from translate import t_treeconsts, t_treeops, t_treealgo, t_sel
 
 HARNESS = 'c0809.py'
 KNOWN_SLOT_REUSE = 'reproduction:fitness[worst]=0:slot-reuse-with-nonpositive-fitness'
@@ -42,7 +42,15 @@ def regenerate(ctx):
     for er in errors3:
         ctx.oblige('T-treealgo translation of %s' % er['item'], False, '%s:%s: %s' % (er['file'], er['line'], er['msg']))
     ctx.oblige('T-treealgo translated pre_order, find_node and _properties of core/node.py (called by the operators)', not errors3)
-    return not errors and not errors2 and not errors3
+    # what the population-level code calls in math/general.py (tournament_selection, pairwise): Props/C09.v proves the
+    # heap model's tournament / pairs equal to the interpretation of these bodies (Model/TreeHeapSelLink.v); the same
+    # file, from the same translator, that props/C18.py regenerates
+    text4, _items4, errors4 = t_sel.generate(core.REPO)
+    core.write_if_changed(os.path.join(core.GEN, 'SelDescr.v'), text4)
+    for er in errors4:
+        ctx.oblige('T-sel translation of %s' % er['item'], False, '%s:%s: %s' % (er['file'], er['line'], er['msg']))
+    ctx.oblige('T-sel translated tournament_selection and pairwise of math/general.py (called by _reproduction, _mutation, _crossover)', not errors4)
+    return not errors and not errors2 and not errors3 and not errors4
 
 
 # ---------------------------------------------------------------------------- Coq syntax
@@ -271,7 +279,7 @@ def run_common(ctx, pid, extra_allowed=()):
               'translator T-treeops (translate/t_treeops.py): pointer effects of _cross / _mutate / grow linking -> Gen/TreeOps.v '
               '(= the model descriptions by reflexivity; their interpretation = the model functions, proved)',
               'harness/c0809.py: graph serialiser, scripted randomness, independent WF/disjointness/slot oracle',
-              'hand-written model Model/TreeHeap.v: _cross, _mutate, the linking step of grow, _reproduction, _mutation, _crossover, _prune_nodes and the selection part of grow are tied by T-treeops / T-treepop + proof; pre_order, find_node and n_nodes are proved equal, on every heap representing a tree, to the interpretation of the descriptions regenerated from core/node.py by T-treealgo (Model/TreeHeapAlgoLink.v); deepcopy, _evaluate and the tournament by the correspondence run only',
+              'hand-written model Model/TreeHeap.v: _cross, _mutate, the linking step of grow, _reproduction, _mutation, _crossover, _prune_nodes and the selection part of grow are tied by T-treeops / T-treepop + proof; pre_order, find_node and n_nodes are proved equal, on every heap representing a tree, to the interpretation of the descriptions regenerated from core/node.py by T-treealgo (Model/TreeHeapAlgoLink.v); the tournament and pairwise the population-level code calls are proved equal to the interpretation of the bodies regenerated from math/general.py by T-sel (Model/TreeHeapSelLink.v; what the interpreter Model/SelDescr.v takes np.random.choice, min, ==, np.where to mean stays tied to NumPy by the C18 correspondence run); deepcopy, _evaluate and np.argmax by the correspondence run only',
               'Model/TreeHeapSer.v: the serialiser and fixtures on the Coq side (unverified, executable)')
     regenerate(ctx)
     ok, log = ctx.build_props(extra_targets=['theories/Model/TreeHeapSer.vo', 'theories/Gen/TreeArity.vo', 'theories/Gen/TreeOps.vo'],
